@@ -489,3 +489,18 @@ Example C01_history_nonvacuous :
   /\ snd (FitterState.exec (FitterState.Seq (FitterState.Work 0) (FitterState.Work 1)) (fun k => Nat.eqb k 1)
             {| FitterState.cfg := fun _ => FitterState.VNat 0; FitterState.slots := fun _ _ => FitterState.VNat 0 |}) = true.
 Proof. split; [repeat constructor|reflexivity]. Qed.
+
+(* ---- nested records: WHICH cells are written.  In every inner row (row i + n_irow of outer iteration i)
+   the recorded values form an initial segment of columns: left of a recorded value there is no unwritten
+   (zero-initialised) gap -- for ALL max_iter, max_iter_2 and ALL oracles (C01/NestedContig.v) ---- *)
+From PB Require C01.NestedContig.
+
+Theorem C01_nested_rows_contiguous : forall (St D : Type) (istep : nat -> nat -> St -> St * Nested.ires D)
+    (ostep : nat -> St -> bool -> list D * bool * St) (n : Nested.ndesc) (m m2 : Z) (s0 : St) (x : Nested.nres St D),
+  Nested.nested_ok n = true ->
+  (Nested.n_early n = false -> forall i j s, snd (istep i j s) <> Nested.IEarly) ->
+  Nested.nested St D istep ostep n m m2 s0 = Some x ->
+  forall r c v, In (r, c, v) (Nested.x_tab x) -> (Nested.n_irow n <= r)%Z ->
+  forall c', (0 <= c' <= c)%Z -> exists v', In (r, c', v') (Nested.x_tab x).
+Proof. intros St D istep ostep n m m2 s0 x Hok He. exact (NestedContig.nested_rows_contiguous St D istep ostep n m m2 Hok He s0 x). Qed.
+Print Assumptions C01_nested_rows_contiguous.
